@@ -1239,6 +1239,9 @@ def emit_ins(em, fc, lb, ins, L, phi_moves):
             if nm.startswith(INTRINSIC_SKIP):
                 return
             fnm = em.gname(cal[1])
+            ss = em.opts.get('self_stubs', {})
+            if nm in ss and cal[1] == fc.f.name:
+                fnm = ss[nm]     # self-recursive call inside F's own body goes to the contract stub
             if nm.startswith('llvm.'):
                 fnm = intrinsic(em, nm, ins)
                 if nm_is_mem(cal) and ins.args[2][1][0] == 'int':
